@@ -144,13 +144,19 @@ InitDesignBegin_(n) ==
   /\ UNCHANGED <<phase, vCount, vMode, vMesh, vCtr, vFlag, pgood, pbest, inc, vHist, vTerm, vFinal>>
 InitDesignBegin == \E n \in 0 .. NInitMax : InitDesignBegin_(n)
 
-InitDesignEval_(v) ==
+\* Under specified noise a design point that coincides with a logged one (in 1-D the Sobol design can hit
+\* the snapped x0) is MERGED into that record: nothing new is logged and the record's value becomes the
+\* precision-weighted mean, so the smallest logged value afterwards is any value (found by refinement
+\* checking with VERIF_SEED=2,3: the first version logged every design point).
+InitDesignEval_(v, merged, w) ==
   /\ phase = "initdesign" /\ pcount = 1 /\ premain > 0
-  /\ Called(v, TRUE)
-  /\ inc' = Min2(inc, v)        \* incumbent := argmin over the design (l.1015)
+  /\ (merged => noisy)
+  /\ (~merged => w = Min2(inc, v))
+  /\ Called(v, ~merged)
+  /\ inc' = w                   \* incumbent := argmin over the logged values (l.1015)
   /\ premain' = premain - 1
   /\ UNCHANGED <<phase, vMode, vMesh, vCtr, vFlag, pcount, pgood, pbest, vHist, vTerm, vFinal>>
-InitDesignEval == \E v \in Vals : InitDesignEval_(v)
+InitDesignEval == \E v \in Vals, merged \in BOOLEAN, w \in Vals : InitDesignEval_(v, merged, w)
 
 \* _init_optimization_: reserve the final samples (l.1071-1080), train GP
 InitDone ==
